@@ -344,6 +344,10 @@ func (s *Server) serverlessTile(p string, size int) (int, []byte) {
 
 // RoundTrip implements http.RoundTripper.
 func (s *Server) RoundTrip(r *http.Request) (*http.Response, error) {
+	// As net/http's transport: a request whose context has ended fails.
+	if err := r.Context().Err(); err != nil {
+		return nil, err
+	}
 	s.mu.Lock()
 	i := len(s.Reqs)
 	s.Reqs = append(s.Reqs, r.URL.RequestURI())
